@@ -7,7 +7,7 @@
    allowed) whose engines behave as behs (read to EOF | read to EOF then fail |
    fail after k bytes | return success unread).  Both polymorphic in the bytes. *)
 From Coq Require Import List Permutation Bool.
-From Verif Require Import Xfer.Chunks Xfer.ChunksProofs Xfer.Pipeline Xfer.PipelineProofs Xfer.Steps Xfer.StepsProofs Xfer.StepsBridge Xfer.Direct Xfer.DirectProofs.
+From Verif Require Import Xfer.Chunks Xfer.ChunksProofs Xfer.Pipeline Xfer.PipelineProofs Xfer.Steps Xfer.StepsProofs Xfer.StepsBridge Xfer.Direct Xfer.DirectProofs Xfer.Multi Xfer.MultiProofs.
 Import ListNotations.
 Local Open Scope bool_scope.
 
@@ -123,6 +123,36 @@ Theorem C29_direct_orig_duplicate_refuted :
   snd (send_direct 1 [Some 0; Some 0] []) = [mkDMsg (Some 0) (Some 0) ENone].
 Proof. exact direct_duplicate_refuted. Qed.
 Print Assumptions C29_direct_orig_duplicate_refuted.
+
+(* several files on ONE SendLargeFile input channel (a client of the streaming RPC):
+   every (distinct target, file) gets a result and every file is delivered completely
+   to every engine that reads to EOF (after the repair; before it only the first file) *)
+Theorem C29_multi_results : forall {A} (files : list (list (list A))) targets behs,
+  let out := send_files files targets behs in
+  mfinished out = true /\
+  Permutation (mresults out) (flat_map (results_of (length files)) (dedupe targets)) /\
+  length (mresults out) = length files * length (dedupe targets).
+Proof. exact @multi_results. Qed.
+Print Assumptions C29_multi_results.
+
+Theorem C29_multi_delivery : forall {A} size (contents : list (list A)) targets behs o f c,
+  0 < size -> In (Some o) targets -> nth_error contents f = Some c ->
+  mreceived (send_files (map (to_chunks size) contents) targets behs) o f =
+    Some (match beh_of behs o with
+          | Drain | DrainErr => c
+          | GiveUp k => firstn k c
+          | Ignore => []
+          end).
+Proof. exact @multi_delivery. Qed.
+Print Assumptions C29_multi_delivery.
+
+Theorem C29_multi_orig_refuted :
+  let out := send_files_with false [[[1; 2]]; [[3]]] [Some 0] [] in
+  mresults out = [(Some 0, Some 0)] /\ mreceived out 0 1 = None /\
+  mresults (send_files [[[1; 2]]; [[3]]] [Some 0] []) = [(Some 0, Some 0); (Some 0, Some 1)] /\
+  mreceived (send_files [[[1; 2]]; [[3]]] [Some 0] []) 0 1 = Some [3].
+Proof. exact multi_orig_refuted. Qed.
+Print Assumptions C29_multi_orig_refuted.
 
 (* the unrepaired network: finished when every target existed and every engine
    read to EOF, but blocked for ever on a missing target or an aborting engine
